@@ -718,7 +718,7 @@ class Emitter:
                 out += [I + l for l in self.vardecl(d)]
             elif k == 'DecompositionDecl':
                 out += [I + l for l in self.decomposition(d)]
-            elif k in ('TypeAliasDecl', 'TypedefDecl', 'UsingDecl', 'UsingDirectiveDecl', 'StaticAssertDecl', 'UsingShadowDecl', 'CXXRecordDecl', 'EnumDecl'):
+            elif k in ('TypeAliasDecl', 'TypedefDecl', 'UsingDecl', 'UsingDirectiveDecl', 'StaticAssertDecl', 'UsingShadowDecl', 'NamespaceAliasDecl', 'CXXRecordDecl', 'EnumDecl'):
                 continue
             else:
                 raise Unsupported('declaration kind %s in %s' % (k, self.cur.cname))
@@ -748,6 +748,13 @@ class Emitter:
                 wasref = ti.ref or qt_sugar(d).strip().endswith('&')
                 ti = self._copy(t2)
                 ti.ref = wasref
+        if ti.kind == 'opq' and init is not None and '(lambda at' in qt(d) and d.get('storageClass') != 'static':
+            # `auto f = [..](..){..};`: the closure type exists only once the lambda expression is emitted
+            pre = self.e(init)
+            t2 = self.T(qt(d))
+            if t2.kind != 'opq':
+                ctx.locals[d['id']] = (name, t2)
+                return ['%s;' % self.decl(t2, name), '%s = %s;' % (name, pre)]
         ctx.locals[d['id']] = (name, ti)
         static = d.get('storageClass') == 'static'
         if static:
